@@ -146,6 +146,10 @@ class RawMeshData:
             if v.ndim==1 and v.size<3:
                 # planar input: pad with zeros so that vertices are always 3D (as done by from_arrays)
                 v = Vec(np.pad(v, (0, 3-v.size)))
+            if v.dtype.kind in "iub":
+                # integer (or boolean) coordinates are stored as floats: with int32/int16 arrays the dot and cross products
+                # of the geometric primitives overflow silently
+                v = Vec(v.astype(np.float64))
             self.vertices[iv] = v
 
     def _prepare_edges(self):
